@@ -323,7 +323,8 @@ try {
     CScript::const_iterator it = env->script.begin();
     opcodetype opcode;
     valtype vchPushValue, p2sh_script_payload;
-    while (env->script.GetOp(it, opcode, vchPushValue)) { p2sh_script_payload = vchPushValue; ++count; }
+    // (the value the last operation pushes: OP_1NEGATE / OP_1..OP_16 push a byte although they carry no payload)
+    while (env->script.GetOp(it, opcode, vchPushValue)) { p2sh_script_payload = (vchPushValue.empty() && (opcode == OP_1NEGATE || (opcode >= OP_1 && opcode <= OP_16))) ? valtype(1, opcode == OP_1NEGATE ? 0x81 : (unsigned char)(opcode - OP_1 + 1)) : vchPushValue; ++count; }
 
     std::vector<std::string> tc_desc;
     CScript p2sh_script;
